@@ -113,7 +113,11 @@ func (a *AddressDecMap) Decode(r stdio.Reader) (err error) {
 	if err := perunio.Decode(r, &mapLen); err != nil {
 		return errors.WithMessage(err, "decoding map length")
 	}
-	*a = make(map[wallet.BackendID]Address, mapLen)
+	if mapLen < 0 {
+		return errors.Errorf("negative map length: %d", mapLen)
+	}
+	// The length is read from the wire, so it must not be used as a size hint.
+	*a = make(map[wallet.BackendID]Address)
 	for i := range mapLen {
 		var idx int32
 		if err := perunio.Decode(r, &idx); err != nil {
@@ -135,11 +139,18 @@ func (a *AddressMapArray) Decode(r stdio.Reader) (err error) {
 	if err := perunio.Decode(r, &mapLen); err != nil {
 		return errors.WithMessage(err, "decoding array length")
 	}
-	*a = make([]map[wallet.BackendID]Address, mapLen)
+	if mapLen < 0 {
+		return errors.Errorf("negative array length: %d", mapLen)
+	}
+	// The length is read from the wire, so the array grows with the entries
+	// that are actually present instead of being allocated up front.
+	*a = make([]map[wallet.BackendID]Address, 0)
 	for i := range mapLen {
-		if err := perunio.Decode(r, (*AddressDecMap)(&(*a)[i])); err != nil {
+		var addr AddressDecMap
+		if err := perunio.Decode(r, &addr); err != nil {
 			return errors.WithMessagef(err, "decoding %d-th address map entry", i)
 		}
+		*a = append(*a, addr)
 	}
 	return nil
 }
